@@ -96,7 +96,15 @@ func (s *Server) sendMonitor(err error, msg *Message, c *Client, lua bool) {
 	}
 	s.monconnsMu.Lock()
 	for conn := range s.monconns {
-		fmt.Fprintf(conn, "+%s [0 %s] %s\r\n", tstr, addr, line)
+		// This runs inside the command, with the server lock held: a monitor
+		// that does not read its socket must not hold up every other client.
+		// It gets a second to take the line and is dropped otherwise.
+		conn.SetWriteDeadline(time.Now().Add(time.Second))
+		if _, werr := fmt.Fprintf(conn, "+%s [0 %s] %s\r\n",
+			tstr, addr, line); werr != nil {
+			delete(s.monconns, conn)
+			conn.Close()
+		}
 	}
 	s.monconnsMu.Unlock()
 }
